@@ -73,6 +73,7 @@ def run(ctx):
     cg = ctx.callgraph()
     rt = ctx.ruletable
     r = Result("C13")
+    r.load_table("c13.json")
     r.rule("C13.loops", "phase/sub-phase loops of check_rules and fix agree; skip first; fix bounded by int(iFixPhase) inclusive")
     r.rule("C13.selectors", "selector functions keep exactly phase ==, subphase ==, not disable")
     r.rule("C13.gate", "bAllPhases guards one phase-level break conditional on error-type violation counts")
@@ -189,6 +190,7 @@ def run(ctx):
                     r.ok("C13.loops", fi.key + ":pipeline-chain", " -> ".join(stages))
 
     _selectors(r, p)
+    _snapshots(r, p, cg)
     _gate(r, p, check, cph, csb)
     _table(r, rt, cp, ca)
     _forwarding(r, p, cg, check, fix)
@@ -206,7 +208,18 @@ def _selectors(r, p):
         appends = [n for n in walk_function(fi.node) if isinstance(n, ast.Call) and isinstance(n.func, ast.Attribute) and n.func.attr == "append"]
         rets = [n for n in walk_function(fi.node) if isinstance(n, ast.Return)]
         if len(appends) != 1 or len(rets) != 1:
-            r.unknown("C13.selectors", key, "unrecognised selector shape")
+            # unrecognised shape: the one thing a selector cannot do without is look at the rule's CURRENT attribute
+            reads = _reads_attr_transitively(p, fi, attr)
+            if not reads:
+                r.fail(
+                    "C13.selectors",
+                    key + ":no-current-" + attr,
+                    "the selector never reads a rule's `%s` when it is called: it selects from state computed earlier "
+                    "(before configuration can re-assign %s), so configured values are ignored by scheduling" % (attr, attr),
+                    fi.loc(),
+                )
+            else:
+                r.unknown("C13.selectors", key, "unrecognised selector shape")
             continue
         a = appends[0]
         ifs = [x for x in _parents(a, fi.node) if isinstance(x, ast.If)]
@@ -228,6 +241,52 @@ def _selectors(r, p):
             r.ok("C13.selectors", key, "keeps rules with `%s`" % norm(t))
         else:
             r.fail("C13.selectors", key, "selector keeps rules under `%s` (expected exact %s test on %s.%s)" % (norm(t), "equality" if kind == "eq" else "negation", v, attr), fi.loc(ifs[0]))
+
+
+def _reads_attr_transitively(p, fi, attr, depth=3, seen=None):
+    """Does fi (or a function it calls, resolved by name in the same module/class) read `<x>.attr`?"""
+    seen = seen if seen is not None else set()
+    if fi.key in seen or depth < 0:
+        return False
+    seen.add(fi.key)
+    for n in walk_function(fi.node):
+        if isinstance(n, ast.Attribute) and n.attr == attr and isinstance(n.ctx, ast.Load) and not (isinstance(n.value, ast.Name) and n.value.id == "self"):
+            return True
+    for n in walk_function(fi.node):
+        if isinstance(n, ast.Call):
+            tgt = None
+            if isinstance(n.func, ast.Name):
+                ent = p.resolve_name(fi.module, n.func.id)
+                if ent and ent[0] == "func":
+                    tgt = ent[1]
+            elif isinstance(n.func, ast.Attribute) and isinstance(n.func.value, ast.Name) and n.func.value.id == "self" and fi.cls is not None:
+                tgt = fi.cls.find_method(n.func.attr)
+            if tgt is not None and _reads_attr_transitively(p, tgt, attr, depth - 1, seen):
+                return True
+    return False
+
+
+def _snapshots(r, p, cg):
+    """Configurable rule attributes read while the rule list is being constructed are snapshots taken
+    before configure() runs."""
+    init = p.function("vsg.rule_list:rule_list.__init__")
+    reach = cg.reachable([init], skip_indirect=True)
+    attrs = ("phase", "subphase", "disable", "fixable", "severity")
+    for k in sorted(reach):
+        fi = p.functions[k]
+        if not fi.module.name.startswith("vsg.rule_list"):
+            continue
+        for n in walk_function(fi.node):
+            if isinstance(n, ast.Attribute) and n.attr in attrs and isinstance(n.ctx, ast.Load) and isinstance(n.value, ast.Name) and n.value.id.startswith("oRule"):
+                kk = "%s:reads:%s.%s" % (fi.key, n.value.id, n.attr)
+                r.fail(
+                    "C13.selectors",
+                    kk,
+                    "`%s.%s` is read while the rule list is constructed, i.e. before configuration is applied: anything derived from it is stale "
+                    "once the user re-assigns %s" % (n.value.id, n.attr, n.attr),
+                    fi.loc(n),
+                    path=[x[0] for x in cg.path(reach, k)],
+                )
 
 
 def _gate(r, p, check, ph, sb):
@@ -288,7 +347,32 @@ def _gate(r, p, check, ph, sb):
                 else:
                     r.fail("C13.gate", K + ":violations-from-failures", "self.violations set True without a positive error-type failure count", check.loc(n))
             else:
-                r.unknown("C13.gate", K + ":violations-writer:" + norm(n))
+                # a computed value: fine only if it cannot clear the flag after an earlier failing phase
+                vt = norm(n.value).replace(" ", "")
+                counters = [x.id for x in ast.walk(n.value) if isinstance(x, ast.Name)]
+                resets = [
+                    a
+                    for a in walk_function(fn)
+                    if isinstance(a, ast.Assign) and any(isinstance(t, ast.Name) and t.id in counters for t in a.targets) and facts.in_loop(a)
+                ]
+                sticky = vt.startswith("self.violationsor") or vt.endswith("orself.violations")
+                if facts.in_loop(n) and not sticky and (resets or not counters):
+                    r.fail(
+                        "C13.gate",
+                        K + ":violations-not-sticky",
+                        "inside the phase loop self.violations is assigned `%s`%s: a later clean phase clears the flag set by an earlier failing phase "
+                        "(with --all_phases the exit status then reflects only the last phase analysed)"
+                        % (norm(n.value), " and %s is reset per iteration" % resets[0].targets[0].id if resets else ""),
+                        check.loc(n),
+                    )
+                elif vt in ("iFailures>0", "iFailures!=0", "bool(iFailures)") and not resets:
+                    r.ok("C13.gate", K + ":violations-from-failures", "flag = cumulative error-type failure count > 0")
+                else:
+                    r.unknown("C13.gate", K + ":violations-writer:" + norm(n))
+    # the counter itself must be cumulative over the phases when it feeds a sticky test
+    for a in walk_function(fn):
+        if isinstance(a, ast.Assign) and any(isinstance(t, ast.Name) and t.id == "iFailures" for t in a.targets) and facts.in_loop(a):
+            r.note("iFailures is reset inside the loops (per-phase count); stickiness of self.violations is what matters")
     # iFailures increments under error-type
     incs = [n for n in walk_function(fn) if isinstance(n, ast.AugAssign) and norm(n.target) == "iFailures"]
     if not incs:
